@@ -155,7 +155,7 @@ def run_property(prop_id, tier, only=None, jobs=None):
         from . import fuzzstage
         if fuzzstage.available():
             fr = fuzzstage.run(prop_id, subs, names, seed, known_sigs, jobs,
-                               int(os.environ.get("VERIF_FUZZ_EXECS", "3000")), int(os.environ.get("VERIF_FUZZ_SECONDS", "120")))
+                               int(os.environ.get("VERIF_FUZZ_EXECS", "3000")), int(os.environ.get("VERIF_FUZZ_SECONDS", "60")))
             results += fr
             fuzz_info = {"engine": "atheris (libFuzzer) -> Hypothesis fuzz_one_input -> the sub-check's strategy and oracle",
                          "instrumented": "synapgrad (branch coverage feedback)",
